@@ -17,6 +17,37 @@ def run(tier):
         return [enc.DEFAULT] + ([rnd.choice(enc.COMBOS)] if rnd.random() < 0.1 else [])
 
     st = enc.run(v, cases, binary, combos_for)
+    # ---- execution monitor for the BMI2 / ADX register forms (vlib/sem.py)
+    from .. import sem
+    plain = common.build("plain")
+    bm = [c for c in cases if c["fam"] in ("bmi_rrr", "rorx_rri", "adx_rr") and c["mn"] != "mulx"]
+    bm = rnd.sample(bm, min(len(bm), 3000 if not full else 40000))
+    ex, exmeta = [], []
+    for c in bm:
+        pr = sem.program(c, rnd)
+        if pr is None:
+            continue
+        ex.append(["new 0 int", "asm 0 %s" % common.hx("\n".join(pr[0])), "exec 0"])
+        exmeta.append((c, pr[0], pr[1]))
+    exres = common.run_cases(plain, ex, tag="c04x")
+    exec_ok = 0
+    for (c, prog, want), cmds, r in zip(exmeta, ex, exres):
+        v.count()
+        cc = {k: x for k, x in c.items() if k not in ("exp", "alt")}
+        cc.update({"key": "exec " + c["text"], "fam": "exec_" + c["fam"], "script": cmds})
+        if r["crash"]:
+            v.violation(cc, r["crash"]["sig"], r["crash"]["stderr"][-600:])
+            continue
+        a, e = r["records"][1].split(), r["records"][2].split()
+        if a[1] != "0":
+            v.violation(cc, "exec:rejected", r["records"][1])
+        elif e[:2] != ["V", "ok"] or int(e[2], 16) != want:
+            v.violation(cc, "exec:computes-differently", "program %s -> %s, model 0x%x" % ("; ".join(prog), " ".join(e), want))
+        else:
+            exec_ok += 1
+            v.distinct(("exec", c["text"]))
+    st["bmi_executions"] = len(ex)
+    st["bmi_executions_ok"] = exec_ok
     v.cov["rule"] = ("every vector / VEX register-only form of the committed spec x register tuples: %s; VEX.L observed as xmm/ymm names, VEX.W as 32/64-bit "
                      "register names, vvvv and inverted R/X/B as register numbers; distinct = (text, bytes) accepted and read back as expected by both decoders"
                      % ("the complete register product" if full else "all two-operand tuples, all three-operand tuples with each operand in {0,7,8,15} plus a seeded 5%"))
